@@ -28,8 +28,8 @@ FUNCTIONS_ENCODED = ['SuperNetCombiner.forward/sample_alpha_sm/best_layer_index'
                      'link_combiners_to_branches (natively at construction)']
 BOUNDS = {'quick': 'S(n, kind): n in {2,3,4} x kinds {conv, seq, user, userfn, identity}, n=11 and n=12 (conv), 2 blocks, block used twice; all winner tuples by forking',
           'thorough': 'n = 2..12 for every kind incl. useradd and mix, 1..3 blocks, block used twice'}
-OUTSIDE = ['nested choice blocks', 'ties between coefficients', 'float32 round-off (exact arithmetic)']
-ASSUMPTIONS = ['coefficients pairwise distinct', 'weights: generic dyadic values (selection does not depend on them)']
+OUTSIDE = ['nested choice blocks', 'float32 round-off (exact arithmetic)', 'ties are covered by the `ties` programs only (n <= 4 quick, <= 5 thorough); the other programs assume pairwise distinct coefficients']
+ASSUMPTIONS = ['coefficients pairwise distinct except in the `ties` programs, where the maximum of at least one block is attained twice; torch.argmax returns the first maximal index (CPU behaviour)', 'weights: generic dyadic values (selection does not depend on them)']
 INSTANCE_TIMEOUT_S = {'quick': 1500, 'thorough': 3600}
 Q = 60000
 
@@ -43,7 +43,11 @@ def instances(tier, seed):
                     continue
                 specs.append({'n': n, 'kind': kind})
         specs += [{'n': 11, 'kind': 'conv'}, {'n': 12, 'kind': 'conv'}, {'n': 2, 'kind': 'conv', 'blocks': 2}, {'n': 3, 'kind': 'seq', 'twice': True},
-                  {'n': 2, 'kind': 'mix', 'blocks': 2, 'twice': True}, {'n': 2, 'kind': 'dw'}, {'n': 2, 'kind': 'conv', 'stem2': True}]
+                  {'n': 2, 'kind': 'mix', 'blocks': 2, 'twice': True}, {'n': 2, 'kind': 'dw'}, {'n': 2, 'kind': 'conv', 'stem2': True},
+                  # blocks declared with Gumbel sampling: in eval mode hard selection must still be a plain one-hot
+                  {'n': 2, 'kind': 'conv', 'gumbel': True}, {'n': 3, 'kind': 'seq', 'gumbel': True},
+                  # coefficients with a tie for the maximum (e.g. the uniform initialisation): the first maximal branch is the winner
+                  {'n': 2, 'kind': 'conv', 'ties': True}, {'n': 3, 'kind': 'seq', 'ties': True}, {'n': 4, 'kind': 'conv', 'ties': True}]
     else:
         for n in range(2, 13):
             for kind in ('conv', 'seq', 'user', 'userfn', 'useradd', 'identity', 'mix'):
@@ -53,6 +57,8 @@ def instances(tier, seed):
                 for twice in (False, True):
                     specs.append({'n': n, 'kind': 'mix', 'blocks': blocks, 'twice': twice})
         specs += [{'n': 11, 'kind': 'conv', 'twice': True}, {'n': 4, 'kind': 'seq', 'twice': True}]
+        specs += [{'n': n, 'kind': k, 'ties': True} for n in (2, 3, 4, 5) for k in ('conv', 'seq', 'mix')] + [{'n': 2, 'kind': 'conv', 'blocks': 2, 'ties': True}]
+        specs += [{'n': n, 'kind': k, 'gumbel': True} for n in (2, 3, 4) for k in ('conv', 'seq', 'mix')] + [{'n': 2, 'kind': 'mix', 'blocks': 2, 'gumbel': True}]
     return [{'id': snlib.prog_id(s), 'spec': s, 'wseed': seed} for s in specs]
 
 
@@ -132,7 +138,7 @@ def run_instance(p):
     combs = snlib.combiners(sn)
 
     def fn(ex):
-        pairs, sy = snlib.fresh_alphas(sn, ex)
+        pairs, sy = snlib.fresh_alphas(sn, ex, ties=bool(spec.get('ties')))
         with SymMode(), swapped_params(pairs):
             x = SymTensor.fresh('x', (1,) + tuple(shape))
             y0 = sn(x)            # forks on the arg-max inside the hard sampling
@@ -155,7 +161,8 @@ def run_instance(p):
             el = a.elems()
             win = None
             for i in range(len(el)):
-                r, _ = ex.must(z3.And([el[i] > el[j] for j in range(len(el)) if j != i]), want_model=False)
+                # largest coefficient, the first one on ties (torch.argmax)
+                r, _ = ex.must(z3.And([el[i] > el[j] for j in range(i)] + [el[i] >= el[j] for j in range(i + 1, len(el))]), want_model=False)
                 if r == 'sat':
                     if win is not None:
                         win = 'ambiguous'
@@ -187,7 +194,7 @@ def run_instance(p):
                     elif r == 'sat':
                         problems.append(('output_differs', bad))
         res.oblige(not problems, 3)
-        mm = snlib.grid_model(ex, dict(sy, x=x), [pb[1]] if problems and st.is_sym(problems[0][1]) else [])
+        mm = snlib.grid_model(ex, dict(sy, x=x), [problems[0][1]] if problems and st.is_sym(problems[0][1]) else [])
         alphas, xv = snlib.values_of(mm, sy), [st.model_value(mm, v) for v in x.elems()]
         if not problems:
             if n <= 8 or n % 6 == 0:
@@ -216,6 +223,6 @@ def run_instance(p):
             else:
                 res.errors.append(f'counterexample did not reproduce: {rec["key"]}: {msg[:400]}')
     res.witnesses += 1
-    res.witnesses_ok += 1 if ex.n_paths >= 2 else 0
+    res.witnesses_ok += 1 if ex.n_paths >= (1 if spec.get('ties') and spec.get('n') == 2 and spec.get('blocks', 1) == 1 else 2) else 0
     res.absorb(ex)
     return res
